@@ -81,6 +81,7 @@ fn ring_shape<F: AnyF>(r: [Coord<F>; 3], collapsed: usize) -> bool {
 ///   2: subject = one 2-gon, clipping = one 2-gon                  -> clipping flag / id incl. the difference rule
 ///   3: subject = two 2-gons, clipping empty                       -> ids count up per polygon
 ///   4: subject = triangle whose first edge is collapsed (repeated vertex) -> no events for it
+///   5: subject empty, clipping = one 2-gon with a 2-gon hole       -> flags / ids of clipping rings, hole flag
 /// (a "2-gon" is the ring a, b, a: two edges, the smallest ring Polygon::new leaves alone).
 pub fn fill_queue_contract_body<F: AnyF, S: Src>(s: &mut S, shape: u8) {
     let op = any_op(s);
@@ -91,6 +92,7 @@ pub fn fill_queue_contract_body<F: AnyF, S: Src>(s: &mut S, shape: u8) {
         1 => (vec![Polygon::new(gon(v[0], v[1]), vec![gon(v[2], v[3])])], vec![]),
         2 => (vec![Polygon::new(gon(v[0], v[1]), vec![])], vec![Polygon::new(gon(v[2], v[3]), vec![])]),
         3 => (vec![Polygon::new(gon(v[0], v[1]), vec![]), Polygon::new(gon(v[2], v[3]), vec![])], vec![]),
+        5 => (vec![], vec![Polygon::new(gon(v[0], v[1]), vec![gon(v[2], v[3])])]),
         _ => (vec![Polygon::new(ring([v[0], v[0], v[2]]), vec![])], vec![]),
     };
     // requires (shape of the instance): the edges that are meant to exist are non-degenerate
@@ -115,6 +117,12 @@ pub fn fill_queue_contract_body<F: AnyF, S: Src>(s: &mut S, shape: u8) {
         1 => (4, [(v[0], v[1], true, 1, true), (v[1], v[0], true, 1, true), (v[2], v[3], true, 1, false), (v[3], v[2], true, 1, false)]),
         2 => (4, [(v[0], v[1], true, 1, true), (v[1], v[0], true, 1, true), (v[2], v[3], false, cid, cext), (v[3], v[2], false, cid, cext)]),
         3 => (4, [(v[0], v[1], true, 1, true), (v[1], v[0], true, 1, true), (v[2], v[3], true, 2, true), (v[3], v[2], true, 2, true)]),
+        5 => {
+            // no subject polygon: the first clipping polygon gets id 1 and an exterior flag unless the operation is a
+            // difference (then clipping rings share the last subject id, here 0, and are never exterior); holes never are
+            let (id, ext) = if op != Operation::Difference { (1, true) } else { (0, false) };
+            (4, [(v[0], v[1], false, id, ext), (v[1], v[0], false, id, ext), (v[2], v[3], false, id, false), (v[3], v[2], false, id, false)])
+        }
         _ => (2, [(v[0], v[2], true, 1, true), (v[2], v[0], true, 1, true), none, none]),
     };
     assert!(pushed_count() == 2 * n_edges, "C13: exactly one pair of events per non-degenerate edge, none for a collapsed edge");
@@ -273,6 +281,7 @@ mod proofs {
     fq_harness!(fill_queue_clipping_f64, f64, 2);
     // shape 3 (two subject polygons) exhausts CBMC's memory; the id counting it would show is covered by shape 2
     fq_harness!(fill_queue_collapsed_f64, f64, 4);
+    fq_harness!(fill_queue_clip_hole_f64, f64, 5);
     fq_harness!(fill_queue_triangle_f32, f32, 0);
     fq_harness!(fill_queue_clipping_f32, f32, 2);
 
